@@ -46,13 +46,15 @@ func init() {
 	})
 	register("C06", &Property{
 		Title:       "Containment and winding queries agree with the path's winding number",
-		Explanation: "Decides: in RayIntersections the per-segment pre-filter hull is a pure Min/Max tree over start, end and every decoded control point (arc: centre∓max(rx,ry)), so no segment the ray can cross is skipped; Contains returns fillRule.Fills(n) for n from Windings(x, y); Windings/Crossings visit every element of Split(); Fills agrees with the rule definitions. NOT decided: the ray/segment case analysis at end points, horizontals and tangents, CCW, Filling's nesting logic.",
+		Explanation: "Decides: in RayIntersections the per-segment pre-filter hull is a pure Min/Max tree over start, end and every decoded control point (arc: centre∓max(rx,ry)), so no segment the ray can cross is skipped; Contains returns fillRule.Fills(n) for n from Windings(x, y); Windings/Crossings visit every element of Split(); Fills agrees with the rule definitions. Since batch 11 also: over all paths of the hit loops of windings and Crossings, a counted hit is non-tangent or a vertex whose sides agree, an end-point hit is always remembered or compared, overlapping hits have no effect; no direction is taken from a cubic derivative that can be zero. NOT decided: the intersection arithmetic of the primitives, CCW's index logic, Filling's nesting logic.",
 		Run: func(c *core.Ctx, r *core.Report) {
 			E3RayImplicitClose(c, r)
 			E3RayHull(c, r)
 			E3EllipseParamAngle(c, r)
 			E9ContainsFlow(c, r)
 			E9Fills(c, r)
+			E9HitCounting(c, r)
+			E9CubicDirection(c, r)
 		},
 	})
 }
@@ -71,6 +73,8 @@ func init() {
 			E11SubpathFlag(c, r)
 			E2MoveReplayed(c, r)
 			E2AccumulatorAdvance(c, r)
+			E2RecordPreserved(c, r)
+			E4LogDomain(c, r)
 		},
 	})
 }
@@ -218,6 +222,7 @@ func init() {
 		Explanation: "Decides the 'made only of straight segments' clause for every input and tolerance: by command-set typing over the whole package, Flatten's result can contain only MoveTo/LineTo/Close (plus such commands inherited from the receiver) and ReplaceArcs' result no ArcTo; the replace driver has the validated splice shape (each kind calls its own non-nil replacer, the record is cut before the replacement is joined, the cursor restarts at the re-attached remainder, so every remaining command passes through the switch); the consumers that rely on it (ToPDF/Tile arc panics, stride-4 scanner loops, the sweep's non-flat panic) only see such paths. NOT decided: the error bound, vertex order, same end points, termination as the tolerance goes to 0, X-monotonicity.",
 		Run: func(c *core.Ctx, r *core.Report) {
 			E10Flatness(c, r)
+			E2PenReread(c, r)
 		},
 	})
 }
@@ -344,6 +349,8 @@ func init() {
 		Run: func(c *core.Ctx, r *core.Report) {
 			E8Units(c, r)
 			E11SweepFlip(c, r)
+			E11RotationMerge(c, r)
+			E11OmittedTerm(c, r)
 		},
 	})
 }
